@@ -229,7 +229,20 @@ func canaryNodesValid(r *sim.Record) []V {
 			wrote = true
 		}
 	}
-	if r.Err == nil && (wrote || reflect.DeepEqual(pre.Status, post.Status)) {
+	// only a reconcile that ran to its end is obliged: one that defaults the object or creates the missing
+	// replica set returns before it looks at the canary at all
+	ranToEnd := false
+	for _, c := range r.Calls {
+		if c.Verb == "list" && c.Kind == "ExtendedDaemonSetReplicaSetList" && c.Err == "" {
+			ranToEnd = true
+		}
+	}
+	for _, c := range r.Calls {
+		if c.Verb == "create" && c.Kind == "ExtendedDaemonSetReplicaSet" {
+			ranToEnd = false
+		}
+	}
+	if ranToEnd && r.Err == nil && (wrote || reflect.DeepEqual(pre.Status, post.Status)) {
 		rss := ownRS(r.Pre, pre)
 		target := matching(rss, &pre.Spec.Template)
 		var sel labels.Selector
